@@ -178,6 +178,17 @@ impl Script {
             .collect()
     }
 
+    /// run harness code against the live cluster on the script's own runtime
+    pub fn with_cluster<R, F>(&mut self, f: F) -> R
+    where
+        F: for<'a> FnOnce(&'a mut Cluster) -> std::pin::Pin<Box<dyn std::future::Future<Output = R> + 'a>>,
+    {
+        let mut c = self.cluster.take().unwrap();
+        let r = self.rt.block_on(f(&mut c));
+        self.cluster = Some(c);
+        r
+    }
+
     pub fn finish(mut self) -> Vec<Event> {
         let c = self.cluster.take();
         self.rt.block_on(async { drop(c) });
